@@ -107,6 +107,83 @@ def floors(tier):
 
 
 # --------------------------------------------------------------------------
+# known findings of C05: avoid switches (feature patterns of vlib.cgmatrix on the IR given to the back-end,
+# or a predicate over integer constants) -- the trigger construct is rewritten away / not generated.
+
+RV = ["riscv", "riscv:rvc"]
+
+
+def _clui_truncated(tyname, v):
+    """i32 constants for which the rvc pattern 'CONSTI32 value < 0x20000' emits c.lui with an upper part outside
+    its 6-bit signed immediate."""
+    if tyname != "i32" or v >= 0x20000 or -32 <= v < 32:
+        return False
+    return not (-32 <= ((v + 0x800) >> 12) <= 31)
+
+
+NARROW = ["i8", "u8", "i16", "u16"]
+
+# key -> targets, deny (cgmatrix feature patterns), const (predicate over (type name, value) of every integer
+# constant), opconst (predicate over (binop operation, type name, value) of a constant operand of a binop)
+FINDINGS = {
+    "riscv-neg-inv-overwrite-operand": {"targets": RV, "deny": ["unop:-:*", "unop:~:*"]},
+    "rvc-consti32-clui-immediate-truncated": {"targets": ["riscv:rvc"], "const": _clui_truncated},
+    "riscv-imm12-patterns-without-lower-bound": {
+        "targets": RV, "opconst": lambda op, ty, v: ty == "i32" and op in "+&|^" and v < -2048},
+    "riscv-subword-arithmetic-not-wrapped": {
+        "targets": RV, "deny": ["binop:[+*-]:[iu]8", "binop:[+*-]:[iu]16", "binop:<<:[iu]8", "binop:<<:[iu]16"]},
+    "riscv-signed-subword-to-unsigned-cast-zero-extends": {
+        "targets": RV, "deny": ["cast:i8:u16", "cast:i8:u32", "cast:i16:u32", "cast:i8:ptr", "cast:i16:ptr"]},
+    "riscv-frame-offset-beyond-imm12": {"targets": RV, "deny": ["frame:ge1024"]},
+}
+
+
+def c05_deny(target, avoid):
+    pats = []
+    for key in avoid:
+        f = FINDINGS.get(key)
+        if f and target in f["targets"]:
+            pats += f.get("deny", [])
+    return pats
+
+
+def const_predicates(target, avoid):
+    """(const predicates, operand-constant predicates) of the open findings that apply to the target."""
+    fs = [FINDINGS[k] for k in avoid if k in FINDINGS and target in FINDINGS[k]["targets"]]
+    return [f["const"] for f in fs if "const" in f], [f["opconst"] for f in fs if "opconst" in f]
+
+
+def _harmless(ty, v):
+    lim = 100 if ty.bits <= 8 else 20000
+    return 40 + abs(v) % lim
+
+
+def rewrite_constants(m, preds):
+    """Replace integer constants that trigger an open finding by a harmless value of the same type
+    (positive, non-zero, small).  Returns the number of rewrites."""
+    from ppci import ir
+
+    cps, ops = preds
+    if not cps and not ops:
+        return 0
+    n = 0
+    for f in m.functions:
+        for b in f.blocks:
+            for ins in b.instructions:
+                if isinstance(ins, ir.Const) and isinstance(ins.value, int) and ins.ty is not ir.ptr \
+                        and any(p(ins.ty.name, ins.value) for p in cps):
+                    ins.value = _harmless(ins.ty, ins.value)
+                    n += 1
+                elif isinstance(ins, ir.Binop) and ops and ins.ty is not ir.ptr:
+                    for c in (ins.a, ins.b):
+                        if isinstance(c, ir.Const) and isinstance(c.value, int) \
+                                and any(p(ins.operation, ins.ty.name, c.value) for p in ops):
+                            c.value = _harmless(c.ty, c.value)
+                            n += 1
+    return n
+
+
+# --------------------------------------------------------------------------
 # C corpus (front-end idioms: pointer arithmetic, arrays, structs, switch)
 
 C_CORPUS = [
@@ -218,7 +295,7 @@ class Mon:
         self.disc[why] = self.disc.get(why, 0) + n
 
     def violation(self, key, summary, case):
-        if key in self.viol_keys or len(self.viol) >= 12:
+        if key in self.viol_keys or len(self.viol) >= int(os.environ.get("C05_MAXVIOL", "12")):
             return
         self.viol_keys.add(key)
         self.viol.append({"summary": summary[:400], "case": case, "replay_spec": case.get("replay_spec")})
@@ -240,7 +317,7 @@ def setup():
 class Target:
     """Everything target specific: types, layout, stub object, executor."""
 
-    def __init__(self, name, mon):
+    def __init__(self, name, mon, avoid=()):
         from ppci import api
         from vlib import cgmatrix as cm
         from checks import c29
@@ -251,7 +328,8 @@ class Target:
         self.x86 = name == "x86_64"
         self.ptr_size = self.arch.info.get_size("ptr")
         self.c29_avoid = open_keys("C29")
-        self.deny = c29.deny_for(name, self.c29_avoid)
+        self.deny = c29.deny_for(name, self.c29_avoid) + c05_deny(name, avoid)
+        self.const_preds = const_predicates(name, avoid)
         c29.install_allocator_switches(name, self.c29_avoid)
         types = cm.target_types(self.arch)
         if not self.x86:
@@ -365,8 +443,8 @@ def build(tgt, m):
         signal.setitimer(signal.ITIMER_REAL, 0)
         signal.signal(signal.SIGALRM, old)
     exts = externals_of(m)
-    if len(exts) > 8:
-        return "avoided", "more than 8 externals"
+    if len(exts) > 16:
+        return "avoided", "more than 16 externals"
     try:
         objs = [obj]
         if exts:
@@ -408,6 +486,7 @@ def exec_rv(tgt, linked, m, calls, steps_of):
         for name, addr, data in mems:
             mach.add_region(addr, data + bytes(64), writable=(name != "code"), name=name)
         mach.add_region(RV_STACK[0], RV_STACK[1], True, name="stack")
+        mach.allow_misaligned = True      # the base ISA permits misaligned data accesses (EEI's choice)
         sp = RV_STACK[0] + RV_STACK[1] - 1024
         locs = tgt.arch.determine_arg_locations([p.ty for p in f.arguments])
         r = c["noise"]
@@ -631,7 +710,7 @@ def callable_function(f):
     return all(p.ty is not ir.ptr and not isinstance(p.ty, ir.BlobDataTyp) for p in f.arguments)
 
 
-def run_module(tgt, mon, make_module, argvecs_of, levels, case, pressure=0):
+def run_module(tgt, mon, make_module, argvecs_of, levels, case, pressure=0, drop_avoided=False):
     """make_module() -> fresh module (deterministic); run it at each level."""
     from ppci import api, ir
     from ppci.irutils import verify_module
@@ -656,6 +735,7 @@ def run_module(tgt, mon, make_module, argvecs_of, levels, case, pressure=0):
             continue
         # constructs of C29's open findings can reappear after optimisation
         mon.obs["neutralised_constructs"] += cm.neutralise(m, tgt.deny, tgt.native)
+        mon.obs["neutralised_constructs"] += rewrite_constants(m, tgt.const_preds)
         try:
             verify_module(m)
             problems = irwf.check_module(m)
@@ -664,10 +744,14 @@ def run_module(tgt, mon, make_module, argvecs_of, levels, case, pressure=0):
         if problems:
             mon.discard("ill-formed-after-optimize (C03's event)")
             continue
-        feats = set()
-        for f in m.functions:
-            feats |= cm.function_features(f)
-        hit = cm.avoided(feats, tgt.deny)
+        hit = None
+        for f in list(m.functions):
+            fh = cm.avoided(cm.function_features(f), tgt.deny)
+            if fh is not None and drop_avoided:
+                m._functions.remove(f)        # matrix cells are independent functions
+                mon.discard("cell-has-avoided-construct")
+            elif fh is not None:
+                hit = fh
         if hit is not None:
             mon.discard("module-has-avoided-construct:%s" % hit)
             continue
@@ -716,7 +800,10 @@ def run_module(tgt, mon, make_module, argvecs_of, levels, case, pressure=0):
             continue
         mh = None
         seen_f = set()
+        skip_f = set()
         for c in calls:
+            if c["f"].name in skip_f:
+                continue
             ref, g = refs[c["id"]], got.get(c["id"])
             if g is None or g["status"].startswith("harness"):
                 mon.discard("harness:%s" % (g or {}).get("status", "no result")[:40])
@@ -733,17 +820,28 @@ def run_module(tgt, mon, make_module, argvecs_of, levels, case, pressure=0):
             diffs = compare(tgt, linked, c["f"], ref, g)
             if diffs:
                 what = diffs[0].split(" ")[0:3]
-                mon.violation("%s/%s/%s" % (tgt.name, case.get("id"), level),
-                              "%s -O%s %s%r: %s" % (tgt.name, level, c["f"].name, tuple(c["args"]), diffs[0][:250]),
+                label = case.get("cells", {}).get(c["f"].name)
+                mon.violation("%s/%s/%s/%s" % (tgt.name, case.get("id"), level, c["f"].name if label else ""),
+                              "%s -O%s %s%s%r: %s" % (tgt.name, level, c["f"].name, (" " + cm.cell_key(label)) if label else "",
+                                                        tuple(c["args"]), diffs[0][:250]),
                               dict(case, level=level, target=tgt.name, function=c["f"].name, args=c["args"],
                                    differences=diffs[:6], reference={"ret": ref.retval, "steps": ref.steps,
-                                                                     "trace": ref.trace[:6]},
-                                   ir=module_text(m)[:12000]))
+                                                                     "trace": ref.trace[:6]}, cell=label,
+                                   ir=(function_text(c["f"]) if label else module_text(m))[:12000]))
+                if label:
+                    skip_f.add(c["f"].name)
+                    continue
                 break
             if len(mon.samples) < 2 and ref.steps > 40 and c["k"] == 1:
                 mon.samples.append({"case": case, "target": tgt.name, "level": level, "function": c["f"].name,
                                     "args": c["args"], "ret": ref.retval, "ir_steps": ref.steps,
                                     "machine_steps": g.get("steps")})
+
+
+def function_text(f):
+    from checks.c29 import function_text as ft
+
+    return ft(f)
 
 
 def levels_for(spec, idx):
@@ -783,6 +881,7 @@ def run_irgen(spec, mon, tgt):
             try:
                 m, info = irgen.gen_module(r, cfg)
                 mon.obs["neutralised_constructs"] += cm.neutralise(m, tgt.deny, tgt.native)
+                mon.obs["neutralised_constructs"] += rewrite_constants(m, tgt.const_preds)
                 pressure = r.choice([0, 0, 6, 12, 24])
                 if pressure:
                     cm.add_pressure(m, r, pressure, tgt.ptr_size)
@@ -948,14 +1047,56 @@ def run_directed(spec, mon, tgt):
         run_module(tgt, mon, make, argvecs, ["0", "2"], case, pressure=n_live)
 
 
+def run_matrix(spec, mon, tgt):
+    """The systematic operator matrix of vlib.cgmatrix (every binop/unop/compare/cast x operand source x consumer,
+    memory forms, argument positions, phi/loop/pressure cells): each cell is one tiny function; a wrong instruction
+    selection pattern is named by its cell."""
+    from vlib import cgmatrix as cm, irgen
+
+    cells = cm.matrix(tgt.types)
+    cells = [c for i, c in enumerate(cells) if i % spec["stride"] == spec["offset"]]
+    cells = cells[spec["sub"]::spec["nsub"]]
+    BATCH = 40
+    for bi in range(0, len(cells), BATCH):
+        batch = cells[bi:bi + BATCH]
+        names = {}
+
+        def make(batch=batch, names=names):
+            mb = cm.ModuleBuilder(tgt.ptr_size)
+            try:
+                for c in batch:
+                    names[mb.add(c)] = c
+            except Exception as e:  # noqa  generator trouble is mine
+                mon.discard("matrix-builder-error:%s" % type(e).__name__)
+                return None
+            mon.obs["neutralised_constructs"] += rewrite_constants(mb.m, tgt.const_preds)
+            return mb.m
+
+        def argvecs(m, bi=bi):
+            r = rng(spec["seed"], PROPERTY, "matrix/%s/%d/%d/%d" % (tgt.name, spec["offset"], spec["sub"], bi))
+            return {f.name: irgen.gen_args(r, m, f.name, 4) for f in m.functions if callable_function(f)}
+
+        if spec["tier"] == "thorough":
+            levels = list(LEVELS)
+        else:
+            levels = ["0"] + (["2"] if (bi // BATCH) % 4 == spec["seed"] % 4 else [])
+        case = {"id": "matrix/%s/%d.%d.%d" % (tgt.name, spec["offset"], spec["sub"], bi), "cells": names,
+                "replay_spec": dict(spec)}
+        before = mon.evals
+        run_module(tgt, mon, make, argvecs, levels, case, drop_avoided=True)
+        mon.obs["matrix_cells"] = mon.obs.get("matrix_cells", 0) + (len(batch) if mon.evals > before else 0)
+
+
 def run_shard(spec):
     setup()
     mon = Mon(spec)
-    tgt = Target(spec["target"], mon)
+    tgt = Target(spec["target"], mon, spec["avoid"])
     for t in TARGETS:
         mon.obs["executed_by_target"].setdefault(t, 0)
     if spec["part"] == "irgen":
         run_irgen(spec, mon, tgt)
+    elif spec["part"] == "matrix":
+        run_matrix(spec, mon, tgt)
     else:
         run_directed(spec, mon, tgt)
     return mon.result()
